@@ -44,7 +44,9 @@ type Solver struct {
 	syms    map[string]bool // currently declared symbols
 	lvDefs  [][]int         // per push level: term ids defined there
 	lvSyms  [][]string      // per push level: symbols declared there
-	stack   []*Term         // asserted path-condition prefix, one push level each
+	stack   []*Term         // the path condition of the last query
+	frames  [][]*Term       // asserted frames, one push level each
+	marks   []int           // frame start indexes for the next syncTo
 	stats   SolverStats
 	timeout int // ms per query
 	log     io.Writer
@@ -53,6 +55,8 @@ type Solver struct {
 	lastErr string
 	lastExtra *Term
 	killed    bool
+	ctx       string
+	ndump     int
 }
 
 func solverArgs(kind string, timeoutMs int) (string, []string) {
@@ -200,21 +204,52 @@ func (s *Solver) pop(n int) {
 }
 
 // syncTo makes the solver's assertion stack equal to pc.
+// syncTo makes the solver's assertion stack equal to pc.  The path condition
+// is grouped into frames (one per decision; marks are the start indexes), one
+// push level per frame.
 func (s *Solver) syncTo(pc []*Term) {
+	marks := s.marks
+	// build frames
+	var frames [][]*Term
+	start := 0
+	for _, m := range marks {
+		if m > start && m <= len(pc) {
+			frames = append(frames, pc[start:m])
+			start = m
+		}
+	}
+	if start < len(pc) {
+		frames = append(frames, pc[start:])
+	}
 	n := 0
-	for n < len(pc) && n < len(s.stack) && pc[n] == s.stack[n] {
+	for n < len(frames) && n < len(s.frames) && sameFrame(frames[n], s.frames[n]) {
 		n++
 	}
-	if d := len(s.stack) - n; d > 0 {
+	if d := len(s.frames) - n; d > 0 {
 		s.pop(d)
-		s.stack = s.stack[:n]
+		s.frames = s.frames[:n]
 	}
-	for _, t := range pc[n:] {
+	for _, f := range frames[n:] {
 		s.push()
-		s.define(t)
-		s.send("(assert " + t.ref() + ")")
-		s.stack = append(s.stack, t)
+		for _, t := range f {
+			s.define(t)
+			s.send("(assert " + t.ref() + ")")
+		}
+		s.frames = append(s.frames, append([]*Term{}, f...))
 	}
+	s.stack = pc
+}
+
+func sameFrame(a, b []*Term) bool {
+	if len(a) != len(b) {
+		return false
+	}
+	for i := range a {
+		if a[i] != b[i] {
+			return false
+		}
+	}
+	return true
 }
 
 func (s *Solver) readLine() (string, error) {
@@ -300,13 +335,37 @@ func (s *Solver) Check(pc []*Term, extra *Term) SatResult {
 
 func (s *Solver) account(r SatResult, start time.Time) {
 	if d := time.Since(start); d > time.Second && os.Getenv("GOSYM_SLOW") != "" {
-		fmt.Fprintf(os.Stderr, "SLOW %.1fs %v\n", d.Seconds(), r)
+		seen := map[int]bool{}
+		var count func(t *Term)
+		count = func(t *Term) {
+			if seen[t.id] {
+				return
+			}
+			seen[t.id] = true
+			for _, a := range t.args {
+				count(a)
+			}
+		}
 		for _, t := range s.stack {
-			fmt.Fprintf(os.Stderr, "   pc: %s\n", showTerm(t, 12))
+			count(t)
 		}
 		if s.lastExtra != nil {
-			fmt.Fprintf(os.Stderr, "   extra: %s\n", showTerm(s.lastExtra, 12))
+			count(s.lastExtra)
 		}
+		ops := map[Op]int{}
+		for id := range seen {
+			_ = id
+		}
+		fmt.Fprintf(os.Stderr, "SLOW %.1fs %v pc=%d dag=%d ctx=%s\n", d.Seconds(), r, len(s.stack), len(seen), s.ctx)
+		if dir := os.Getenv("GOSYM_DUMPSLOW"); dir != "" && s.ndump < 3 {
+			s.ndump++
+			all := append([]*Term{}, s.stack...)
+			if s.lastExtra != nil {
+				all = append(all, s.lastExtra)
+			}
+			dumpStandalone(fmt.Sprintf("%s/slow-%d-%d.smt2", dir, os.Getpid(), s.nmark), all)
+		}
+		_ = ops
 	}
 	s.stats.Queries++
 	d := time.Since(start)
@@ -486,4 +545,43 @@ func tokenize(s string) []string {
 	}
 	flush()
 	return toks
+}
+
+// dumpStandalone writes a self-contained SMT-LIB file asserting the given terms.
+func dumpStandalone(path string, asserts []*Term) {
+	f, err := os.Create(path)
+	if err != nil {
+		return
+	}
+	defer f.Close()
+	w := bufio.NewWriter(f)
+	defer w.Flush()
+	done := map[int]bool{}
+	syms := map[string]bool{}
+	var emit func(t *Term)
+	emit = func(t *Term) {
+		if t.op == OpConst {
+			return
+		}
+		if t.op == OpSym {
+			if !syms[t.name] {
+				syms[t.name] = true
+				fmt.Fprintf(w, "(declare-const %s %s)\n", t.name, sortStr(t.w))
+			}
+			return
+		}
+		if done[t.id] {
+			return
+		}
+		done[t.id] = true
+		for _, a := range t.args {
+			emit(a)
+		}
+		fmt.Fprintln(w, t.def())
+	}
+	for _, t := range asserts {
+		emit(t)
+		fmt.Fprintf(w, "(assert %s)\n", t.ref())
+	}
+	fmt.Fprintln(w, "(check-sat)")
 }
